@@ -140,9 +140,12 @@ func bufVerify() string {
 
 // ---- sequences -------------------------------------------------------------------
 
-func runPasses(s iter.Seq2[string, int], stops []int) string {
+func runPasses(s iter.Seq2[string, int], stops []int, between func()) string {
 	var passes []string
 	for _, stop := range stops {
+		if between != nil {
+			between() // read-only calls between creating the sequence and ranging over it, and between passes
+		}
 		calls := 0
 		stopped := false
 		after := false
@@ -201,6 +204,7 @@ type session struct {
 	side       []sideViolation
 	panics     []string
 	wasPresent bool // the key of the current Insert was stored before the call (per the oracle)
+	curLine    int  // line number of the command being executed
 }
 
 func newSession(o execOpts) *session {
@@ -213,6 +217,7 @@ func hexI(s string) int      { n, _ := strconv.ParseUint(s, 16, 64); return int(
 
 func (se *session) do(toks []string, lineNo int) (res string) {
 	tag := toks[0]
+	se.curLine = lineNo
 	defer func() {
 		if r := recover(); r != nil {
 			se.panics = append(se.panics, fmt.Sprintf("line %d %s: %v", lineNo, strings.Join(toks, " "), r))
@@ -374,7 +379,25 @@ func (se *session) treeOp(t treeDrv, toks []string) string {
 	// sequence methods: all arguments but the last are method arguments, the last is the stop list
 	args := toks[2 : len(toks)-1]
 	stops := parseStops(toks[len(toks)-1])
-	return tag + " " + runPasses(t.Seq(tag, args), stops)
+	seq := t.Seq(tag, args)
+	// queries issued while a sequence value is alive must not change what it yields (they share the tree, the
+	// codec's scratch buffers, whatever the sequence captured)
+	between := func() {
+		// (with fresh key slices: the two reused key buffers of the -buf mode still belong to the sequence's own
+		// arguments, which were overwritten when the call returned and must stay overwritten)
+		if bufOn { // (only ever true in the single-threaded exec mode: the race leg never writes this variable)
+			bufOn = false
+			defer func() { bufOn = true }()
+		}
+		if (tag == "RNG" || tag == "PFX") && len(args) > 0 {
+			t.Search(args[0])
+			t.Search(args[len(args)-1]) // last: whatever scratch storage the codec has now holds ANOTHER key than the start bound's
+		} else {
+			t.Min()
+		}
+		t.Size()
+	}
+	return tag + " " + runPasses(seq, stops, between)
 }
 
 // ENC kind variant key: Transform, then Restore of what Transform produced
